@@ -11,6 +11,7 @@ import multiprocessing as mp
 from .process_executor import ProcessPoolExecutor, EXTRA_QUEUED_CALLS
 from .backend.context import cpu_count
 from .backend import get_context
+from .process_executor import _verif_point
 
 __all__ = ["get_reusable_executor"]
 
@@ -188,6 +189,7 @@ class _ReusablePoolExecutor(ProcessPoolExecutor):
             else:
                 if reuse == "auto":
                     reuse = kwargs == _executor_kwargs
+                _verif_point("executor.reuse.before_check", executor=executor)
                 if (
                     executor._flags.broken
                     or executor._flags.shutdown
@@ -238,6 +240,7 @@ class _ReusablePoolExecutor(ProcessPoolExecutor):
                 self._max_workers = max_workers
                 return
 
+            _verif_point("executor.resize.enter", executor=self)
             self._wait_job_completion()
 
             # Some process might have returned due to timeout so check how many
@@ -249,6 +252,7 @@ class _ReusablePoolExecutor(ProcessPoolExecutor):
                 self._max_workers = max_workers
                 for _ in range(max_workers, nb_children_alive):
                     self._call_queue.put(None)
+            _verif_point("executor.resize.before_shrink_wait", executor=self)
             while (
                 len(self._processes) > max_workers and not self._flags.broken
             ):
@@ -256,6 +260,7 @@ class _ReusablePoolExecutor(ProcessPoolExecutor):
 
             self._adjust_process_count()
             processes = list(self._processes.values())
+            _verif_point("executor.resize.after_adjust", executor=self)
             while (
                 not all(p.is_alive() for p in processes)
                 and not self._flags.broken
